@@ -14,6 +14,11 @@ from .common import rule_construct, norm, report_undecided, walk_shapes, grouped
 ARTIFACT_NAMES = ("Time", "Interval", "Duration", "Artifact")
 
 
+# clauses that report a construct they found (a write, a computed value), not a pattern they
+# failed to find: the idiom guard of sa/idioms.py does not apply to them
+IDIOM_GUARD_EXEMPT = {"id-sharing", "model-vocabulary", "unique-name"}
+
+
 def check(ctx, rep, tier):
     rb = ctx.rb
     rep.describe("unique-name", "no two top-level functions of a rule module share a name "
@@ -119,11 +124,15 @@ def _registry(ctx, rep):
             ok_key = norm(key) == "{}.__name__".format(fparam)
             v = n.value
             if isinstance(v, ast.Tuple) and v.elts and isinstance(v.elts[0], ast.Name):
-                inner = rm.funcs.get("rule.fwrapper." + v.elts[0].id)
+                from .common import registered_callable
+                inner, how = registered_callable(rm)
                 ok_val = inner is not None
-                if inner is not None:
+                if inner is not None and how[0] == "name":
                     ok_call = any(isinstance(c, ast.Call) and isinstance(c.func, ast.Name)
-                                  and c.func.id == fparam for c in ast.walk(inner))
+                                  and c.func.id == how[1] for c in ast.walk(inner))
+                elif inner is not None:
+                    ok_call = any(isinstance(c, ast.Call) and norm(c.func) == "self." + how[1]
+                                  for c in ast.walk(inner))
     rep.add("registered", rm.rel + "::rule.fwrapper::registry-key", where, ok_key,
             "" if ok_key else "registry key is not the production's own __name__")
     rep.add("registered", rm.rel + "::rule.fwrapper::registry-value", where, ok_val and ok_call,
@@ -168,7 +177,7 @@ def _ids(ctx, rep):
     the body of rule._map with its helpers inlined, constant-propagated for a fresh pattern text
     and for a text that is already in the table."""
     rm = ctx.imod("ctparse.rule")
-    f = rm.func("rule._map")
+    f = rm.funcs.get("rule._map") or rm.func("rule")
     where = rm.where(f)
     T1, T2 = "\ue000fresh+", "\ue000other+"
     first = 4242
